@@ -64,3 +64,21 @@ A(V("c20-subprocess-new", "C20", "ttx.py", "def ttList(input, output, options):\
 A(V("c20-import-data", "C20", TF, "    pyTag = tagToIdentifier(tag)\n    try:\n        __import__(\"fontTools.ttLib.tables.\" + pyTag)", "    pyTag = tagToIdentifier(tag)\n    try:\n        __import__(\"fontTools.ttLib.tables.\" + tag)", "F14b"))
 A(V("c20-tagident-dot", "C20", TF, "        return hex(byteord(c))[2:]\n", "        return \".\" + hex(byteord(c))[2:]\n", "F14b"))
 A(V("c20-benign-msg", "C20", SF, "raise TTLibError(\"Not a Font Collection\")", "raise TTLibError(\"not a TrueType collection\")", None, expect=0))
+
+# ---- C16 -------------------------------------------------------------------
+FB = "feaLib/builder.py"
+SUB = "subset/__init__.py"
+A(V("c16-drop-sorted-palette", "C16", SUB, "    for new_index, old_index in enumerate(sorted(retained_palette_indices)):", "    for new_index, old_index in enumerate(retained_palette_indices):", "F12"))
+A(V("c16-drop-sorted-varc", "C16", SUB, "        usedIndices = sorted(usedIndices)\n        table.AxisIndicesList.Item = _list_subset(axisIndicesList, usedIndices)", "        table.AxisIndicesList.Item = _list_subset(axisIndicesList, usedIndices)", "F12"))
+A(V("c16-new-env", "C16", "ttLib/tables/_n_a_m_e.py", "    def compile(self, ttFont):\n", "    def compile(self, ttFont):\n        import os\n        if os.environ.get('FT_NAME_DEBUG'):\n            pass\n", "F13a"))
+A(V("c16-timestamp-unguarded", "C16", "ttLib/tables/_h_e_a_d.py", "        if ttFont.recalcTimestamp:\n            self.modified = timestampNow()", "        if ttFont.recalcBBoxes:\n            self.modified = timestampNow()", "F13b"))
+A(V("c16-new-store-in-compile", "C16", "ttLib/tables/_p_o_s_t.py", "    def compile(self, ttFont):\n", "    def compile(self, ttFont):\n        self.compiledOnce = True\n", "F11"))
+A(V("c16-format-not-deleted", "C16", "ttLib/tables/otBase.py", "        if deleteFormat:\n            del self.Format\n", "        if deleteFormat and writer is None:\n            del self.Format\n", "F11r"))
+A(V("c16-lazy-branch", "C16", "ttLib/tables/_l_o_c_a.py", "    def compile(self, ttFont):\n", "    def compile(self, ttFont):\n        if ttFont.lazy:\n            pass\n", "LAZY"))
+A(V("c16-passthrough-transform", "C16", "ttLib/ttFont.py", "            log.debug(\"Reading '%s' table from disk\", tag)\n            return self.reader[tag]", "            log.debug(\"Reading '%s' table from disk\", tag)\n            return bytes(self.reader[tag]).rstrip(b\"\\0\")", "LAZY"))
+A(V("c16-intern-set", "C16", "ttLib/tables/otBase.py", "        for i, item in enumerate(items):\n            if hasattr(item, \"getCountData\"):", "        for i, item in enumerate(set(items)):\n            if hasattr(item, \"getCountData\"):", "INTERN"))
+A(V("c16-colr-glyphmap", "C16", "ttLib/tables/C_O_L_R_.py", "            glyphMap=ttFont.getReverseGlyphMap(rebuild=True),\n", "", "F12d"))
+A(V("c16-ttc-restore-order", "C16", "ttLib/ttCollection.py", "                restore.append((font, font.recalcTimestamp))\n                font[\"head\"].modified = now\n                font.recalcTimestamp = False\n", "                font[\"head\"].modified = now\n                font.recalcTimestamp = False\n                restore.append((font, font.recalcTimestamp))\n", "F12d"))
+A(V("c16-classdef-unsorted", "C16", "ttLib/tables/otTables.py", "        if items:\n            items.sort()\n            last, lastName, lastCls = items[0]", "        if items:\n            last, lastName, lastCls = items[0]", "F12d"))
+A(V("c16-lang-set-join", "C16", FB, "        self.lookups_ = []\n", "        self.lookups_ = []\n        self._langs = \",\".join(set([\"a\", \"b\"]))\n", "F12", count=2))
+A(V("c16-benign-sorted-set", "C16", FB, "        self.lookups_ = []\n", "        self.lookups_ = []\n        self._langs = \",\".join(sorted(set([\"a\", \"b\"])))\n", None, expect=0, count=2))
